@@ -12,16 +12,20 @@ COQ_IMPORTS = dc.COQ_IMPORTS
 RULE = dc.RULE + (" || C02 judges single-cause runs only: exactly one of {plan returned, stop, abort, halt, pause/suspension in a "
                   "non-resumable section, unhandled exception}, with a plan that lets the thrown control exception propagate; "
                   "mixed causes are left to the model correspondence")
-cases = dc.cases
 coq_term = dc.coq_term
+
+
+def cases(rng, tier):
+    # + oracle-only family (not in the engine model): a status of an earlier call finishing during a later call
+    return dc.cases(rng, tier) + dc.engine_cases_docs.gen_crosscall(rng, tier)
 
 CONTROL = ("RequestAbort", "RequestStop", "PlanHalt", "FailedPause", "GeneratorExit", "CancelledError")
 
 
-def engine_stops(obs):
+def engine_stops(obs_list):
     """RunStop documents emitted by the engine itself (not while a close_run message is processed)"""
     res, in_close = [], False
-    for o in obs["obs"]:
+    for o in obs_list:
         if o[0] == "msg":
             in_close = o[2]["cmd"] == "close_run"
         elif o[0] == "resp":
@@ -31,21 +35,59 @@ def engine_stops(obs):
     return res
 
 
-def classify(case, obs):
-    """-> (cause, detail) for single-cause runs, (None, why) otherwise"""
-    if len(case.get("calls", [None])) != 1:
-        return None, "several calls"
-    sched = obs["sched"]
+def segments(obs):
+    """per RE(...) call: the slice of the observation list and of the schedule that belongs to it
+       (from its ["main","call"] up to the next one), plus the status ids created in it"""
+    def split(lst):
+        segs, cur = [], None
+        for x in lst:
+            if x[0] == "main" and x[1] == "call":
+                cur = []
+                segs.append(cur)
+            if cur is not None:
+                cur.append(x)
+        return segs
+    so, ss = split(obs["obs"]), split(obs["sched"])
+    # status ids are handed out in the order of the set/trigger device calls
+    it = iter(obs.get("devcalls", []))
+    own = []
+    for seg in so:
+        sids = set()
+        for o in seg:
+            if o[0] == "dev":
+                try:
+                    dc_ = next(it)
+                except StopIteration:
+                    break
+                if dc_[2][0] == "status":
+                    sids.add(dc_[2][1])
+        own.append(sids)
+    return [{"obs": a, "sched": b, "sids": c} for a, b, c in zip(so, ss, own)]
+
+
+def classify(case, obs, k=0, seg=None):
+    """-> (cause, detail) for a call that ended by a single cause, (None, why) otherwise"""
+    if seg is None:
+        segs = segments(obs)
+        if k >= len(segs):
+            return None, "call did not happen"
+        seg = segs[k]
+    sched = seg["sched"]
     # a refused abort still leaves its reason behind, so refused requests count as causes too
     term = [e[1] for e in sched if e[0] == "req_done" and e[1] in ("abort", "stop", "halt")]
     soft = [e[1] for e in sched if (e[0] == "req_done" and e[1] in ("pause", "suspend")) or
             (e[0] == "inject" and e[1] in ("pause", "defer", "suspend"))]
-    soft += [1 for o in obs["obs"] if o[0] == "msg" and o[2]["cmd"] in ("pause", "_start_suspender")]
-    tape = obs["tapes"].get("0") or []
+    soft += [1 for o in seg["obs"] if o[0] == "msg" and o[2]["cmd"] in ("pause", "_start_suspender")]
+    tape = obs["tapes"].get(str(k)) or []
     if not tape:
         return None, "plan never ran"
     inp, out = tape[-1]
     thrown = [i[1] for i, _ in tape if i[0] == "throw"]
+    if "FailedStatus" in thrown or (out[0] == "raise" and out[1] == "FailedStatus"):
+        failed = [e[1] for e in sched if e[0] == "status_done" and not e[2]]
+        if not any(sid in seg["sids"] for sid in failed):
+            return "foreign_status", "a FailedStatus reached the plan of call %d although none of its own statuses %s failed (failed: %s)" % (
+                k, sorted(seg["sids"]), failed)
     fp = "FailedPause" in thrown
     if len(term) > 1 or (term and fp):
         return None, "several terminal causes"
@@ -81,23 +123,41 @@ def oracle(case, obs):
         return e
     if dc.transient(obs):
         return None        # class C07-c: the engine never went idle again
-    cause, detail = classify(case, obs)
+    segs = segments(obs)
+    all_outs = ec.outs_of(obs)
+    if not all_outs:
+        return "no blocking call outcome logged"
+    if all_outs[-1]["state"] != "idle":
+        return None        # the run has not ended (still paused at the end of the script)
+    left = dc.mon(case, obs)["open"]
+    if left:
+        return "run(s) %s still open when the last plan ended got no RunStop" % (left,)
+    # whatever else happened: a run closed by the engine as failed carries the text of the exception, never the
+    # reason given to an abort
+    for s in engine_stops(obs["obs"]):
+        if s[3] == "fail" and (not s[4] or s[4] in ("because", "main")):
+            return "run %s closed with exit_status 'fail' but reason %r is not the text of the exception" % (s[2], s[4])
+    for k, seg in enumerate(segs):
+        why = judge(case, obs, k, seg)
+        if why:
+            return why if len(segs) == 1 else "call %d: %s" % (k, why)
+    return None
+
+
+def judge(case, obs, k, seg):
+    cause, detail = classify(case, obs, k, seg)
     if cause is None:
         return None
-    outs = ec.outs_of(obs)
-    if not outs:
-        return "no blocking call outcome logged"
-    if outs[-1]["state"] != "idle":
-        return None        # the run has not ended (still paused at the end of the script)
+    if cause == "foreign_status":
+        return detail
+    outs = [{"action": o[1], "kind": o[2], "state": o[-3], "exn": o[3] if o[2] == "raise" else None, "raw": o}
+            for o in seg["obs"] if o[0] == "out"]
     # the call that was blocked in RE(...) / RE.resume() when the run ended, or before abort()/stop()/halt() ended it
     blocked = [o for o in outs if o["action"] in ("call", "resume")]
     if not blocked:
         return "no RE()/resume() outcome logged"
     last = blocked[-1]
-    left = dc.mon(case, obs)["open"]
-    if left:
-        return "run(s) %s still open when the plan ended by %s got no RunStop" % (left, cause)
-    for s in engine_stops(obs):
+    for s in engine_stops(seg["obs"]):
         st, reason = s[3], s[4]
         if st != EXPECT[cause]:
             return "run %s left open when the plan ended by %s: RunStop exit_status %r, expected %r" % (s[2], cause, st, EXPECT[cause])
@@ -132,4 +192,4 @@ def finding(case, obs):
 def nontrivial(case, obs):
     if obs.get("errors"):
         return False
-    return classify(case, obs)[0] is not None and bool(engine_stops(obs))
+    return classify(case, obs)[0] is not None and bool(engine_stops(obs["obs"]))
